@@ -26,6 +26,8 @@ ADSETS = [
     [("-a", "w1=ACGNNCGG")],
     [("-g", "p1=^TTGCAGCA"), ("-a", "s1=ACGTACGG$")],
     [("-a", "l3=TTGCAGCA...CCGGTTAA"), ("-a", "a1=ACGTACGG")],
+    # an 'anywhere' adapter that is found at the very start of the searched sequence (so it removes the 5' side) with a later round
+    [("-b", "b1=GGATCCAA"), ("-a", "a1=ACGTACGG")],
 ]
 ADSEQ = {"a1": "ACGTACGG", "g1": "TTGCAGCA", "b1": "GGATCCAA", "a2": "CCGGTTAA", "w1": "ACGNNCGG", "p1": "TTGCAGCA", "s1": "ACGTACGG",
          "l1;1": "TTGCA", "l1;2": "ACGTACGG", "l2;1": "TTGCAGCA", "l2;2": "CCGGTTAA", "l3;1": "TTGCAGCA", "l3;2": "CCGGTTAA"}
@@ -43,7 +45,11 @@ def corpus():
                  # a linked adapter with both parts around a further adapter (later round inside the linked remainder)
                  G1 + i + A1 + "TT" + A2, G1 + G1 + i + "CA" + A2, "TTGCA" + G1 + i + A1, "TTGCA" + i + A2 + "TC" + A1,
                  # only the 3' part of a linked adapter with an optional 5' part, another adapter left of it
-                 i + A1 + "TT" + A2, "CC" + i + A1 + "GT" + A2 + "AAGG"]
+                 i + A1 + "TT" + A2, "CC" + i + A1 + "GT" + A2 + "AAGG",
+                 # the anywhere adapter at the start of what is searched (as given, and after -u 3), another adapter later
+                 B1 + i + A1 + "GG", "CAT" + B1 + i + A1 + "GGT", B1[2:] + i + A1,
+                 # partial occurrences with a deletion: 7 adapter bases aligned (1 error allowed), only 6 read bases removed
+                 i + "ACGACG", "TGCGCA" + i, i + "ACGTACG", "GCAGCA" + i + "ACGTCGG"]
     seqs = list(dict.fromkeys(seqs))
     recs = []
     for k, s in enumerate(seqs):
@@ -74,7 +80,7 @@ def scenarios(tier):
             for times in (1, 2, 3):
                 for rc in (False, True):
                     for filt in ([], ["-m", "12"], ["--discard-trimmed"], ["--discard-untrimmed", "-M", "14"]):
-                        if tier == "quick" and filt and (times == 3 or (ai % 3 != 0)):
+                        if tier == "quick" and filt and (times == 3 or (ai % 3 != 0) or ai == 10):
                             continue
                         S.append(dict(pre=pre, ai=ai, times=times, rc=rc, filt=filt))
     # paired-end: the info file describes R1 only, whatever is done to R2 (R2-only modifiers and adapters included)
@@ -200,7 +206,7 @@ def _judge(V, res, case, rows, recs, byname, sc, pre_kind, mate_recs=None):
             continue
         first = True
         prev_linked_front = None
-        for row in g:
+        for ri_, row in enumerate(g):
             if len(row) < 11:
                 V.append((f"{sig}:fields", "match row has fewer than 11 fields", dict(case, read=name, row=row)))
                 break
@@ -231,6 +237,12 @@ def _judge(V, res, case, rows, recs, byname, sc, pre_kind, mate_recs=None):
                 cur_s, cur_q = cur_s[:start], cur_q[:start]
             else:
                 five = aname.startswith(("g", "p")) or (aname.startswith("b") and start == 0)
+                if aname.startswith("b") and start != 0 and ri_ + 1 < len(g) and len(g[ri_ + 1]) >= 7:
+                    # an anywhere adapter removes the 5' side iff it starts at the first base of the SEARCHED sequence, which is not
+                    # column 0 when -u/-q removed bases before: take the side that the next row continues with (if it continues
+                    # with neither, that row is reported)
+                    nxt = g[ri_ + 1][4] + g[ri_ + 1][5] + g[ri_ + 1][6]
+                    five = nxt == cur_s[end:] and nxt != cur_s[:start]
                 if five:
                     cur_s, cur_q = cur_s[end:], cur_q[end:]
                 else:
@@ -275,7 +287,7 @@ def run(tier):
     R.assumptions = ["which adapter is applied in which round is C09's business; here each row must be self-consistent and consistent "
                      "with the input read / the previous round's remainder", "field 6 is re-aligned to the named adapter by the C reference"]
     return R.finish(tot.get("evals", 0), tot.get("nontrivial", 0),
-                    "scenarios = 11 sets of pre-adapter modifications (subsets of -u 3, -u -2, -q 10,10, -q 10, --nextseq-trim 10) x 10 adapter "
+                    "scenarios = 11 sets of pre-adapter modifications (subsets of -u 3, -u -2, -q 10,10, -q 10, --nextseq-trim 10) x 11 adapter "
                     "sets (3', 5', anywhere, anchored, wildcard, two linked) x --times {1,2,3} x --revcomp on/off x filters that discard "
                     "reads; plus paired-end runs (R2-only cuts/adapters/quality trimming, adapters on R1, R2 or both: the rows describe R1); "
                     "corpus of ~100 reads with position-unique qualities; every info-file row is checked; non-trivial = read has a match row",
